@@ -671,6 +671,10 @@ func c15AttrTables(d *dialectAPI, r *hx.Rand) []*schema.Table {
 			schema.NewColumn("i3").SetType(&schema.IntegerType{T: "integer"}).AddAttrs(&postgres.Identity{Generation: "BY DEFAULT", Sequence: &postgres.Sequence{Start: -5, Increment: -1}}),
 			schema.NewColumn("i4").SetType(&schema.IntegerType{T: "smallint"}).AddAttrs(&postgres.Identity{Generation: "ALWAYS", Sequence: &postgres.Sequence{Start: 100, Increment: -10}}),
 			schema.NewColumn("i5").SetType(&schema.IntegerType{T: "bigint"}).AddAttrs(&postgres.Identity{Generation: "ALWAYS", Sequence: &postgres.Sequence{Start: -3, Increment: 2}}),
+			// values a float64 cannot hold exactly
+			schema.NewColumn("i6").SetType(&schema.IntegerType{T: "bigint"}).AddAttrs(&postgres.Identity{Generation: "BY DEFAULT", Sequence: &postgres.Sequence{Start: 9007199254740993, Increment: 1}}),
+			schema.NewColumn("i7").SetType(&schema.IntegerType{T: "bigint"}).AddAttrs(&postgres.Identity{Generation: "ALWAYS", Sequence: &postgres.Sequence{Start: 9223372036854775807, Increment: -9223372036854775805}}),
+			schema.NewColumn("i8").SetType(&schema.IntegerType{T: "bigint"}).AddAttrs(&postgres.Identity{Generation: "ALWAYS", Sequence: &postgres.Sequence{Start: -9223372036854775807, Increment: 27021597764222977}}),
 			schema.NewColumn("g").SetType(intT()).SetGeneratedExpr(&schema.GeneratedExpr{Expr: "(k + 1)", Type: "STORED"}),
 		)
 	default:
